@@ -26,6 +26,8 @@ claimed = {
    text="Partial. Proved: gen_<base>.go naming next to the source and no file for .foi; the per-let reset zeroes the temporary counter and replaces only the type-variable context; the root guard. NOT decided: the main non-interference clause (insert/delete/reorder unrelated definitions, split into files) - it is a whole-parser property over scopes and global tables that these function contracts do not reach; the evidence says so."),
  "C08": dict(design="§4 C08", technique="contract-based deductive verification: ghost-rank contract (ghost parameter / ghost result / ghost well-grouped flag) on the mutually recursive precedence-climbing pair parseBinAfter / parseExprWithPrec with a like-contract on the function-typed parameter, node-shape postconditions on the binary-operator factory, template postcondition on binOpToGo, plus closed-world scans of the operator table literal and of the newBinOpCall call sites; z3/cvc5; failing chains found by running the real parser and emitter on enumerated operator chains",
    text="Proof, for operator chains of any length, that every binary node is built with a left operand of rank >= and a right operand of rank > its operator's rank (one fixed table, left association), that nodes keep (accumulated, new) as (left, right), that a node is emitted parenthesised in order, and that the table literal is the published one. Operands (parseTerm results) are abstract: that application binds tighter and that no operand is lost or reordered is not decided."),
+ "C05": dict(design="§4 C05", technique="contract-based deductive verification: order-free, result-determining postconditions on every consumer of a dictionary enumeration (eqsUnion, eqsItems, rsRegisterNewEI, scLookupRecFacCur, exaustiveCheck) proved against dict.Keys/Values/KVs contracts that leave the order unspecified (each entry exactly once), with call-site loop invariants for the inlined slice.Iter over effectful closures; plus a closed-world scan of Go's nondeterminism sources and of the enumeration call sites; one known finding (F8) carved out by a precondition and re-run against the real binary on every check",
+   text="Proof that the result of each enumeration consumer does not depend on the enumeration order (the postcondition holds for every order Go may choose and determines the observable result), and a scan showing there is no other source of nondeterminism. Known finding F8 (two records with equal field names) is excluded by an explicit carve-out precondition and reported as KNOWN-FINDING while it reproduces."),
 }
 na = {
  "C01": "whole-compiler semantic preservation needs a formal semantics of Folang and of Go plus a simulation proof through tokenizer, parser, inference and emitter; no function-level contract expresses it (DESIGN §5). Its run-time ingredients are decided under C10, C12-C14.",
